@@ -606,6 +606,27 @@ theorem tolinen_reseed_fresh (ss : List (String × RngStream)) (path : Path) (rn
     simp only [reseedStreams, List.mem_map]
     exact ⟨(n, s), hs, by simp only [find?_linenRngsDict, hk, Option.map_none]⟩
 
+/-- **ToLinen called several times inside one Linen `init`/`apply`**: the scope's `make_rng` counters are
+state threaded through the calls of the instance, so (from fresh counters) the `k`-th call reseeds stream
+`n` with `make_rng` key number `k` at the wrapper's scope, the `j`-th key the NNX module then draws is
+`fold_in(that key, j)`, and two different calls never see a key in common. -/
+theorem tolinen_repeated_calls_fresh_keys (path : Path) (rngs : Keys) (hn : (rngs.map Prod.fst).Nodup) (m : Nat) :
+    callKeyDicts path rngs m [] =
+      ((List.range m).map fun k => rngs.map fun e => (e.1, KeyT.linen (.base e.2) path k)) ∧
+    (∀ (k k' : Nat) (key : Key) (j j' : Nat), k ≠ k' →
+      KeyT.fold (.linen (.base key) path k) j ≠ KeyT.fold (.linen (.base key) path k') j') := by
+  refine ⟨?_, ?_⟩
+  · have := callKeyDicts_spec path rngs hn m [] 0 (by intro n _; rfl)
+    simpa using this
+  · intro k k' key j j' hk h
+    injection h with h1 _
+    injection h1 with _ _ h3
+    exact hk h3
+
+example : callKeyDicts ["inner"] [("dropout", ⟨"dropout", 0, 9⟩)] 3 []
+    = [[("dropout", .linen (.base ⟨"dropout", 0, 9⟩) ["inner"] 0)], [("dropout", .linen (.base ⟨"dropout", 0, 9⟩) ["inner"] 1)],
+       [("dropout", .linen (.base ⟨"dropout", 0, 9⟩) ["inner"] 2)]] := by decide
+
 /-- **ToNNX: keys are never reused.** The `i`-th draw from the wrapper's `rngs` (one per `lazy_init` or
 call) hands stream `n` the key `(n, c + i)`; with distinct stream names, two different calls never give
 the wrapped module a key in common. -/
